@@ -144,19 +144,26 @@ class SimConn(object):
       raise (self.tx_err or BrokenPipeError(errno.EPIPE, 'Broken pipe (simulated)'))
     data = bytes(data)
     self.sent += data
-    self.net._log('send', self, n=len(data))
-    self.net._on_send(self, data)
-    # Backpressure: the write call was issued (its bytes count as written now) but it returns only
-    # when the socket has drained.
-    while self.stall_until > self.net.loop.now() + 1e-9:
-      self.net._log('send_stalled', self)
-      t = self.net.loop.timer(self.stall_until - self.net.loop.now())
-      t.start(self._send_ready)
-      try:
-        self._park('send')
-      finally:
-        t.stop()
-      self._check_open()
+    # 'send' is logged when the write call starts (that is when its bytes count as written by the client)
+    self.net._log('send', self, n=len(data), data=data)
+    if self.stall_until > self.net.loop.now() + 1e-9:
+      # Back-pressure: the peer is not reading.  Part of the buffer is accepted now, the call blocks, the
+      # rest follows when the socket has drained (a second writer on the same socket would interleave).
+      k = len(data) // 2
+      if k:
+        self.net._on_send(self, data[:k])
+      while self.stall_until > self.net.loop.now() + 1e-9:
+        self.net._log('send_stalled', self)
+        t = self.net.loop.timer(self.stall_until - self.net.loop.now())
+        t.start(self._send_ready)
+        try:
+          self._park('send')
+        finally:
+          t.stop()
+        self._check_open()
+      self.net._on_send(self, data[k:])
+    else:
+      self.net._on_send(self, data)
     return None
 
   def _send_ready(self):
